@@ -44,7 +44,7 @@ def gen(rng, scenario, tier):
         cfg = {"k_nn": rng.randint(3, 5), "sampling_times": (2**21) // (2 * n) + rng.randint(40, 900), "alpha": rng.choice([0.01, 0.05])}
         bs, drifts = workload.batches(rng, 3, 2, n, n, equal=True, drift_rate=0.6, nd=3)
         return {"cfg": cfg, "events": [[b, np_seed(rng)] for b in bs], "drift_positions": drifts}
-    d = rng.randint(1, 3)
+    d = rng.randint(1, 3) if rng.random() > 0.06 else rng.randint(16, 22)      # (also: more features than tree-based searches like)
     cfg = {"k_nn": rng.choice([1, 2, 3, 4, 5, 8, 12]), "sampling_times": rng.randint(8, 30), "alpha": rng.choice([0.01, 0.1, 0.3, 0.6, 0.8])}
     bs, drifts = workload.batches(rng, rng.randint(4, 10), d, rng.choice([3, 6, 6]), 34, equal=rng.random() < 0.4, drift_rate=rng.choice([0.3, 0.5]),
                                   nd=rng.choice([1, 2, 2]), dup=rng.choice([0.0, 0.2, 0.4]), regimes=("offset", "tiny", "lattice"))
@@ -166,6 +166,12 @@ def run(case, ctx):
                 same = NNSpacePartitioner(k)
                 same.build(X.copy(), np.vstack([X[::-1], X[:2]]))   # the same set, other order and multiplicities
                 d_same = NNSpacePartitioner.compute_nnps_distance(same.nnps_matrix, same.v1, same.v2)
+            # the membership vectors as boolean masks (one-hot all the same) must give the same distance
+            d_bool = NNSpacePartitioner.compute_nnps_distance(p.nnps_matrix, np.asarray(p.v1) > 0, np.asarray(p.v2) > 0)
+            if not close(d_bool, d_impl, 1e-9):
+                ctx.violation("distance", "C10:nnsp:distance_boolean_masks",
+                              f"batch {i}: compute_nnps_distance with boolean membership masks gives {d_bool!r}, with the 0/1 vectors {d_impl!r}")
+                raise EndRun()
             if not close(d_impl, d_act, 1e-9) or not close(d_impl, d_rev, 1e-9) or not (-1e-12 <= d_impl <= 1 + 1e-12) or abs(d_same) > 1e-12:
                 ctx.violation("distance", "C10:nnsp:distance",
                               f"batch {i}: compute_nnps_distance={d_impl!r}, definition {d_act!r}, samples swapped {d_rev!r}, same set given twice {d_same!r}")
